@@ -16,7 +16,36 @@ use serde_json::json;
 use std::collections::BTreeMap;
 use std::sync::{Arc, Mutex};
 
-const FUNCS: [(&str, bool); 3] = [("c1", true), ("c2", true), ("n1", false)];
+const FUNCS: [(&str, bool); 5] = [("c1", true), ("c2", true), ("n1", false), ("mc", true), ("mn", false)];
+/// the functions of the classic legs (the last two return containers and are used by the embedding leg)
+const CLASSIC: usize = 3;
+
+/// how a call is embedded in its rule (embedding leg)
+const WRAPS: [&str; 10] = ["bare", ".k", ".l.0", ".zz", "is_some", "[..]", "{x: ..}", "if true", "== i0", ".k + i1"];
+
+fn wrap(w: usize, call: RE) -> RE {
+    match w {
+        1 => RE::idxf(call, "k"),
+        2 => RE::idxn(RE::idxf(call, "l"), 0),
+        3 => RE::idxf(call, "zz"),
+        4 => RE::un(UnOp::IsSome, call),
+        5 => RE::List(vec![call]),
+        6 => RE::Map([("x".to_string(), call)].into_iter().collect()),
+        7 => RE::iff(RE::Val(RV::Bool(true)), call, RE::Val(RV::Int(0))),
+        8 => RE::bin(BinOp::Eq, call, RE::Val(RV::Int(0))),
+        9 => RE::bin(BinOp::Add, RE::idxf(call, "k"), RE::Val(RV::Int(1))),
+        _ => call,
+    }
+}
+
+/// what an invocation returns: a fresh token, wrapped in a container for the m-functions
+fn result_value(name: &str, t: u64) -> RV {
+    if name.starts_with('m') {
+        RV::map(&[("k", token_value(t)), ("l", RV::List(vec![token_value(t)]))])
+    } else {
+        token_value(t)
+    }
+}
 
 fn dec(mant: u128, scale: u32) -> RV {
     RV::Dec(RDec { neg: false, mant, scale })
@@ -100,7 +129,7 @@ fn handler(world: &Arc<Mutex<World>>) -> Handler {
         } else if fail {
             (Err(anyhow::Error::new(Injected(t))), 0)
         } else {
-            (Ok(token_value(t).to_value()), 0)
+            (Ok(result_value(name, t).to_value()), 0)
         }
     })
 }
@@ -149,7 +178,7 @@ impl Env for CacheEnv<'_> {
         if fail {
             Err(RErr::UserFunctionError(name.to_string(), t))
         } else {
-            let v = token_value(t);
+            let v = result_value(name, t);
             if cacheable {
                 self.cache.insert(key, v.clone());
             }
@@ -177,6 +206,8 @@ fn splits(n: usize) -> Vec<Vec<usize>> {
 struct Case {
     calls: Vec<(usize, usize)>, // (function index, argument index)
     split: Vec<usize>,
+    /// embedding of each call (index into WRAPS); empty = all bare
+    wraps: Vec<usize>,
 }
 
 fn build_case(case: &Case, argv: &[RE], world: &Arc<Mutex<World>>) -> Result<(RuleSet, Vec<RE>), String> {
@@ -185,7 +216,7 @@ fn build_case(case: &Case, argv: &[RE], world: &Arc<Mutex<World>>) -> Result<(Ru
     let mut trees = Vec::new();
     let mut k = 0;
     for (ri, len) in case.split.iter().enumerate() {
-        let items: Vec<RE> = case.calls[k..k + len].iter().map(|(f, a)| RE::call(FUNCS[*f].0, argv[*a].clone())).collect();
+        let items: Vec<RE> = case.calls[k..k + len].iter().enumerate().map(|(j, (f, a))| wrap(case.wraps.get(k + j).copied().unwrap_or(0), RE::call(FUNCS[*f].0, argv[*a].clone()))).collect();
         k += len;
         let tree = RE::List(items);
         let expr = tree.try_to_expr().map_err(|p| format!("constructor panicked: {p}"))?;
@@ -205,7 +236,11 @@ fn label(case: &Case, argv: &[RE]) -> String {
     for len in &case.split {
         let items: Vec<String> = case.calls[k..k + len]
             .iter()
-            .map(|(f, a)| format!("{}({})", FUNCS[*f].0, argv[*a].unparse().unwrap_or_default()))
+            .enumerate()
+            .map(|(j, (f, a))| {
+                let w = case.wraps.get(k + j).copied().unwrap_or(0);
+                format!("{}({}){}", FUNCS[*f].0, argv[*a].unparse().unwrap_or_default(), if w == 0 { String::new() } else { format!("<{}>", WRAPS[w]) })
+            })
             .collect();
         k += len;
         parts.push(format!("[{}]", items.join(", ")));
@@ -292,7 +327,7 @@ fn check_case(case: &Case, argv: &[RE], evaluations: usize, dev: Option<u32>, ac
             acc.violation(Violation {
                 sig: format!("{lbl}/{which}"),
                 what: format!("rules {lbl}, failure pattern {:?}, {evaluations} evaluations: {desc}", script),
-                case: json!({"kind": "history", "calls": case.calls, "split": case.split, "evaluations": evaluations}),
+                case: json!({"kind": "history", "calls": case.calls, "split": case.split, "wraps": case.wraps, "evaluations": evaluations}),
                 size: case.calls.len() * 100 + case.split.len() * 10 + script.iter().filter(|b| **b).count(),
             });
         }
@@ -308,7 +343,7 @@ fn check_case(case: &Case, argv: &[RE], evaluations: usize, dev: Option<u32>, ac
 }
 
 fn cases(n_args: usize, max_len: usize) -> Vec<Case> {
-    let alphabet: Vec<(usize, usize)> = (0..FUNCS.len()).flat_map(|f| (0..n_args).map(move |a| (f, a))).collect();
+    let alphabet: Vec<(usize, usize)> = (0..CLASSIC).flat_map(|f| (0..n_args).map(move |a| (f, a))).collect();
     let mut seqs: Vec<Vec<(usize, usize)>> = vec![vec![]];
     let mut frontier = seqs.clone();
     for _ in 0..max_len {
@@ -326,10 +361,114 @@ fn cases(n_args: usize, max_len: usize) -> Vec<Case> {
     let mut out = Vec::new();
     for s in seqs {
         for sp in splits(s.len()) {
-            out.push(Case { calls: s.clone(), split: sp });
+            out.push(Case { calls: s.clone(), split: sp, wraps: vec![] });
         }
     }
     out
+}
+
+const SCRIPT_SHAPES: usize = 3;
+
+fn script_shape(si: usize) -> (&'static str, Vec<i128>) {
+    match si {
+        0 => ("[t(i1), t(i1), t(i2), t(i1)]", vec![1, 1, 2, 1]),
+        1 => ("[t(i1), t(t(i1).0)]", vec![]),
+        _ => ("[t(i1).0, t(i1).0]", vec![1, 1]),
+    }
+}
+
+/// one run of the `cacheable()`-script leg
+fn run_script(si: usize, script: &[bool], acc: &mut Acc) {
+    use std::sync::atomic::{AtomicUsize, Ordering};
+    let (text, arg_seq) = script_shape(si);
+    let arg_seq = &arg_seq;
+    let script: Vec<bool> = script.to_vec();
+    let script = &script;
+    let queries = Arc::new(AtomicUsize::new(0));
+    let log: Arc<Mutex<Vec<(RV, i128)>>> = Arc::new(Mutex::new(Vec::new()));
+    let l2 = log.clone();
+    let h: Handler = Arc::new(move |_name, p| {
+        let mut g = l2.lock().unwrap();
+        let tok = 1000 + g.len() as i128;
+        g.push((RV::from_value(&p), tok));
+        // shapes 1 and 2 index the result
+        (Ok(if si == 0 { Value::Int(tok) } else { Value::Vec(vec![Value::Int(tok)]) }), 0)
+    });
+    let mut t = probe("t", true, &h);
+    let (sc, q) = (script.clone(), queries.clone());
+    t.cacheable_script = Some(Arc::new(move || {
+        let i = q.fetch_add(1, Ordering::SeqCst);
+        *sc.get(i).unwrap_or(sc.last().unwrap())
+    }));
+    let rs = match ruleset().with_rule(Rule::new("r", BTreeMap::new(), Expr::parse(text).unwrap())).and_then(|b| b.with_function(t)) {
+        Ok(b) => b.build(),
+        Err(e) => {
+            acc.machinery(format!("script leg: {e}"));
+            return;
+        }
+    };
+    acc.count("executions", 1);
+    acc.count("cacheable_script_runs", 1);
+    let res = catch(|| block_on(rs.evaluate_value(&Value::None)).map(|r| r.map(|o| o.into_iter().map(|x| x.value.map_err(|e| e.to_string())).collect::<Vec<_>>()).map_err(|e| e.to_string())));
+    let calls = log.lock().unwrap().clone();
+    let problem: Option<String> = match res {
+        Err(p) => Some(format!("panic: {p}")),
+        Ok(Err(m)) => Some(format!("machinery: {m}")),
+        Ok(Ok(Err(e))) => Some(format!("evaluation failed: {e}")),
+        Ok(Ok(Ok(vals))) => match vals.first() {
+            Some(Ok(Value::Vec(items))) => {
+                let mut bad = None;
+                if !arg_seq.is_empty() {
+                    for (i, (item, arg)) in items.iter().zip(arg_seq.iter()).enumerate() {
+                        let ok = calls.iter().any(|(a, tok)| *a == RV::Int(*arg) && Value::Int(*tok) == *item);
+                        if !ok {
+                            bad = Some(format!("item {i} = {item:?} is not the result of an invocation for argument i{arg} (invocations {calls:?})"));
+                        }
+                    }
+                    let distinct: std::collections::BTreeSet<i128> = arg_seq.iter().cloned().collect();
+                    if calls.len() < distinct.len() || calls.len() > arg_seq.len() {
+                        bad = Some(format!("{} invocations for {} calls over {} distinct arguments", calls.len(), arg_seq.len(), distinct.len()));
+                    }
+                }
+                bad
+            }
+            other => Some(format!("outcome {other:?}")),
+        },
+    };
+    acc.outcome(format!("script-shape{si}:invocations={}", calls.len()));
+    if let Some(desc) = problem {
+        acc.violation(Violation {
+            sig: format!("cacheable-script/{si}/{}", desc.split(':').next().unwrap_or("")),
+            what: format!("rule `{text}`, cacheable() answers {script:?} (last repeated): {desc}"),
+            case: json!({"kind": "cacheable-script", "shape": si, "script": script}),
+            size: script.len(),
+        });
+    }
+}
+
+/// every `cacheable()` answer script up to the tier's length, over the rule shapes; with
+/// `only_panics` the violations other than panics are dropped (used by C01)
+pub fn script_leg(tier: Tier, only_panics: bool) -> (Acc, usize) {
+    let mut scripts: Vec<Vec<bool>> = Vec::new();
+    for len in 1..=tier.pick(8usize, 12usize) {
+        for bits in 0..(1u32 << len) {
+            scripts.push((0..len).map(|i| bits >> i & 1 == 1).collect());
+        }
+    }
+    let mut acc = scripts
+        .par_iter()
+        .map(|script| {
+            let mut acc = Acc::new();
+            for si in 0..SCRIPT_SHAPES {
+                run_script(si, script, &mut acc);
+            }
+            acc
+        })
+        .reduce(Acc::new, |a, b| a.merge(b));
+    if only_panics {
+        acc.violations.retain(|_, v| v.what.contains("panic: "));
+    }
+    (acc, scripts.len())
 }
 
 pub fn run(tier: Tier) -> i32 {
@@ -380,13 +519,74 @@ pub fn run(tier: Tier) -> i32 {
         let mut calls: Vec<(usize, usize)> = (0..n).map(|a| (0usize, a)).collect();
         calls.extend((0..n).map(|a| (0usize, a)));
         calls.extend((0..n).rev().map(|a| (a % 2, a)));
-        let case = Case { calls, split: vec![n, n, n] };
+        let case = Case { calls, split: vec![n, n, n], wraps: vec![] };
         let mut acc = Acc::new();
         let st = check_case(&case, &argv_big, 2, Some(0), &mut acc);
         acc.count("wide_histories", 1);
         rep.absorb(acc);
         stats.add(&st);
         n_cases += 1;
+    }
+    // embedding leg: container-returning functions (one cacheable, one not) whose calls sit directly
+    // under an index step, a built-in, a constructor, a conditional or an operator; every sequence
+    // of (function, argument, embedding) up to the bound, every split, every failure choice
+    {
+        let m_args: Vec<usize> = vec![0, 1, 12]; // i1, "1", m1
+        let alphabet: Vec<(usize, usize, usize)> = (CLASSIC..FUNCS.len()).flat_map(|f| m_args.iter().flat_map(move |a| (0..WRAPS.len()).map(move |w| (f, *a, w)))).collect();
+        let max_len = tier.pick(2usize, 3usize);
+        let mut seqs: Vec<Vec<(usize, usize, usize)>> = vec![vec![]];
+        let mut frontier = seqs.clone();
+        for len in 0..max_len {
+            let mut next = Vec::new();
+            for s in &frontier {
+                for c in &alphabet {
+                    // length 3 (thorough): same function and argument throughout, embeddings free
+                    if len >= 2 && (s[0].0 != c.0 || s[0].1 != c.1) {
+                        continue;
+                    }
+                    let mut t = s.clone();
+                    t.push(*c);
+                    next.push(t);
+                }
+            }
+            seqs.extend(next.iter().cloned());
+            frontier = next;
+        }
+        let mut cs: Vec<Case> = Vec::new();
+        for s in &seqs {
+            for sp in splits(s.len()) {
+                cs.push(Case { calls: s.iter().map(|c| (c.0, c.1)).collect(), split: sp, wraps: s.iter().map(|c| c.2).collect() });
+            }
+        }
+        n_cases += cs.len() as u64;
+        rep.bound("embedding_leg", format!("functions mc (cacheable) / mn (not) returning {{k: token, l: [token]}}, 3 arguments, embeddings {:?}, sequences up to {max_len}, all splits, 2 evaluations", WRAPS));
+        let (acc, st) = cs
+            .par_iter()
+            .map(|c| {
+                let mut acc = Acc::new();
+                let st = check_case(c, &argv, 2, Some(1), &mut acc);
+                acc.count("embedded_histories", 1);
+                (acc, st)
+            })
+            .reduce(
+                || (Acc::new(), TreeStats::default()),
+                |(a, mut sa), (b, sb)| {
+                    sa.add(&sb);
+                    (a.merge(b), sa)
+                },
+            );
+        rep.absorb(acc);
+        stats.add(&st);
+    }
+    // `cacheable()` as an environment answer: every script of answers (true/false per query, the
+    // last one repeated) up to 8 queries, over three rule shapes.  The statement fixes the result
+    // only for a constant answer, so the oracle here is the part that holds for any script: no
+    // panic, no error, every result is the token of an invocation made for that very argument at or
+    // before that call, at least one invocation per distinct argument and at most one per call.
+    {
+        let (acc, n) = script_leg(tier, false);
+        rep.bound("cacheable_answer_scripts", n);
+        rep.absorb(acc);
     }
     // a function whose `cacheable()` answer changes from true to false between two calls of one
     // evaluation: once it declares itself non-cacheable it is invoked on every call
@@ -451,7 +651,7 @@ pub fn run(tier: Tier) -> i32 {
     {
         let argv10: Vec<RE> = (0..10).map(|i| RE::Val(RV::Int(200 + i))).collect();
         for f in 0..2usize {
-            let case = Case { calls: (0..10).map(|a| (f * 2, a)).collect(), split: vec![1; 10] };
+            let case = Case { calls: (0..10).map(|a| (f * 2, a)).collect(), split: vec![1; 10], wraps: vec![] };
             let mut acc = Acc::new();
             let st = check_case(&case, &argv10, 1, None, &mut acc);
             rep.absorb(acc);
@@ -469,6 +669,26 @@ pub fn run(tier: Tier) -> i32 {
 }
 
 pub fn replay(case: &serde_json::Value) -> i32 {
+    if case.get("kind").and_then(|k| k.as_str()) == Some("cacheable-script") {
+        let si = case.get("shape").and_then(|x| x.as_u64()).unwrap_or(0) as usize;
+        let script: Vec<bool> = case.get("script").and_then(|a| a.as_array()).map(|a| a.iter().filter_map(|b| b.as_bool()).collect()).unwrap_or_default();
+        if script.is_empty() || si >= SCRIPT_SHAPES {
+            println!("cannot decode case");
+            return 2;
+        }
+        println!("rule `{}` with cacheable() answering {script:?} (last answer repeated)", script_shape(si).0);
+        let mut acc = Acc::new();
+        run_script(si, &script, &mut acc);
+        return if acc.violations.is_empty() {
+            println!("verdict: holds");
+            0
+        } else {
+            for v in acc.violations.values() {
+                println!("verdict: VIOLATED — {}", v.what);
+            }
+            1
+        };
+    }
     let calls: Vec<(usize, usize)> = case
         .get("calls")
         .and_then(|a| a.as_array())
@@ -492,7 +712,8 @@ pub fn replay(case: &serde_json::Value) -> i32 {
         println!("cannot decode case");
         return 2;
     }
-    let c = Case { calls, split };
+    let wraps: Vec<usize> = case.get("wraps").and_then(|a| a.as_array()).map(|a| a.iter().filter_map(|x| x.as_u64().map(|v| v as usize)).collect()).unwrap_or_default();
+    let c = Case { calls, split, wraps };
     println!("history: {} ({} evaluations, all failure patterns)", label(&c, &argv), evaluations);
     let mut acc = Acc::new();
     check_case(&c, &argv, evaluations, None, &mut acc);
